@@ -37,11 +37,52 @@ type Call struct {
 
 // RecContractor wraps the in-repo reference contractor and logs every call.
 type RecContractor struct {
-	*testutil.EphemeralContractor
+	rhp.Contractor
 	mu    sync.Mutex
 	Calls []Call
 	// Hook, if set, is called at the start of every mutating call (scheduling point for race harnesses).
 	Hook func(name string)
+	// LockHook, if set, is called before LockV2Contract.
+	LockHook func(name string)
+	blocked  chan struct{}
+}
+
+// BlockedOnLock returns a channel that receives when a LockV2Contract call has been waiting for more than
+// a grace period (only meaningful with a blocking contractor): the gate driver then lets the other RPC run.
+func (c *RecContractor) BlockedOnLock() <-chan struct{} {
+	c.mu.Lock()
+	defer c.mu.Unlock()
+	if c.blocked == nil {
+		c.blocked = make(chan struct{}, 4)
+	}
+	return c.blocked
+}
+
+func (c *RecContractor) blockedCh() chan struct{} {
+	c.BlockedOnLock()
+	return c.blocked
+}
+
+// LockV2Contract forwards to the wrapped contractor; reports long waits on BlockedOnLock.
+func (c *RecContractor) LockV2Contract(id types.FileContractID) (rhp.RevisionState, func(), error) {
+	if c.LockHook != nil {
+		c.LockHook("LockV2Contract")
+	}
+	done := make(chan struct{})
+	ch := c.blockedCh()
+	go func() {
+		select {
+		case <-done:
+		case <-time.After(30 * time.Millisecond):
+			select {
+			case ch <- struct{}{}:
+			default:
+			}
+		}
+	}()
+	rs, unlock, err := c.Contractor.LockV2Contract(id)
+	close(done)
+	return rs, unlock, err
 }
 
 func (c *RecContractor) log(call Call) {
@@ -74,7 +115,7 @@ func (c *RecContractor) hook(n string) {
 
 func (c *RecContractor) AddV2Contract(ts rhp.TransactionSet, u proto4.Usage) error {
 	c.hook("AddV2Contract")
-	err := c.EphemeralContractor.AddV2Contract(ts, u)
+	err := c.Contractor.AddV2Contract(ts, u)
 	call := Call{Name: "AddV2Contract", Usage: u, Err: err}
 	if n := len(ts.Transactions); n > 0 && len(ts.Transactions[n-1].FileContracts) == 1 {
 		t := ts.Transactions[n-1]
@@ -87,7 +128,7 @@ func (c *RecContractor) AddV2Contract(ts rhp.TransactionSet, u proto4.Usage) err
 
 func (c *RecContractor) RenewV2Contract(ts rhp.TransactionSet, u proto4.Usage) error {
 	c.hook("RenewV2Contract")
-	err := c.EphemeralContractor.RenewV2Contract(ts, u)
+	err := c.Contractor.RenewV2Contract(ts, u)
 	call := Call{Name: "RenewV2Contract", Usage: u, Err: err}
 	if n := len(ts.Transactions); n > 0 && len(ts.Transactions[n-1].FileContractResolutions) == 1 {
 		res := ts.Transactions[n-1].FileContractResolutions[0]
@@ -103,7 +144,7 @@ func (c *RecContractor) RenewV2Contract(ts rhp.TransactionSet, u proto4.Usage) e
 func (c *RecContractor) ReviseV2Contract(id types.FileContractID, rev types.V2FileContract, roots []types.Hash256, u proto4.Usage) error {
 	c.hook("ReviseV2Contract")
 	before := c.stored(id)
-	err := c.EphemeralContractor.ReviseV2Contract(id, rev, roots, u)
+	err := c.Contractor.ReviseV2Contract(id, rev, roots, u)
 	c.log(Call{Name: "ReviseV2Contract", Contract: id, Revision: &rev, Roots: append([]types.Hash256(nil), roots...), Usage: u, Err: err, Before: before})
 	return err
 }
@@ -111,7 +152,7 @@ func (c *RecContractor) ReviseV2Contract(id types.FileContractID, rev types.V2Fi
 func (c *RecContractor) CreditAccountsWithContract(d []proto4.AccountDeposit, id types.FileContractID, rev types.V2FileContract, u proto4.Usage) ([]types.Currency, error) {
 	c.hook("CreditAccountsWithContract")
 	before := c.stored(id)
-	b, err := c.EphemeralContractor.CreditAccountsWithContract(d, id, rev, u)
+	b, err := c.Contractor.CreditAccountsWithContract(d, id, rev, u)
 	c.log(Call{Name: "CreditAccountsWithContract", Contract: id, Revision: &rev, Deposits: append([]proto4.AccountDeposit(nil), d...), Usage: u, Err: err, Before: before})
 	return b, err
 }
@@ -119,26 +160,26 @@ func (c *RecContractor) CreditAccountsWithContract(d []proto4.AccountDeposit, id
 func (c *RecContractor) CreditPoolsWithContract(d []proto4.AccountDeposit, id types.FileContractID, rev types.V2FileContract, u proto4.Usage) ([]types.Currency, error) {
 	c.hook("CreditPoolsWithContract")
 	before := c.stored(id)
-	b, err := c.EphemeralContractor.CreditPoolsWithContract(d, id, rev, u)
+	b, err := c.Contractor.CreditPoolsWithContract(d, id, rev, u)
 	c.log(Call{Name: "CreditPoolsWithContract", Contract: id, Revision: &rev, Deposits: append([]proto4.AccountDeposit(nil), d...), Usage: u, Err: err, Before: before})
 	return b, err
 }
 
 func (c *RecContractor) DebitAccount(a proto4.Account, u proto4.Usage) error {
 	c.hook("DebitAccount")
-	err := c.EphemeralContractor.DebitAccount(a, u)
+	err := c.Contractor.DebitAccount(a, u)
 	c.log(Call{Name: "DebitAccount", Account: a, Usage: u, Err: err})
 	return err
 }
 
 func (c *RecContractor) AttachPools(a []proto4.PoolAttachment) error {
-	err := c.EphemeralContractor.AttachPools(a)
+	err := c.Contractor.AttachPools(a)
 	c.log(Call{Name: "AttachPools", Err: err})
 	return err
 }
 
 func (c *RecContractor) DetachPools(d []proto4.PoolDetachment) error {
-	err := c.EphemeralContractor.DetachPools(d)
+	err := c.Contractor.DetachPools(d)
 	c.log(Call{Name: "DetachPools", Err: err})
 	return err
 }
@@ -324,6 +365,7 @@ type World struct {
 	Settings           proto4.HostSettings
 	Contract           rhp.ContractRevision // the renter's view of the planted contract
 	serveDone          chan struct{}
+	closeCon           func()
 }
 
 // Key returns a deterministic key.
@@ -350,10 +392,21 @@ func Prices(hostKey types.PrivateKey, tipHeight uint64, validUntil time.Time) pr
 }
 
 // NewWorld builds a rig whose chain state is cs. wallet may be nil (only needed for formation RPCs).
-func NewWorld(cm *chain.Manager, wallet rhp.Wallet) *World {
+func NewWorld(cm *chain.Manager, wallet rhp.Wallet) *World { return NewWorldWith(cm, wallet, false) }
+
+// NewWorldWith optionally uses the trusting contractor (stores whatever the server hands it, without
+// re-verifying signatures or revision numbers) instead of the in-repo reference contractor, so that the
+// server's own checks are what stands between a bad request and the host's state.
+func NewWorldWith(cm *chain.Manager, wallet rhp.Wallet, trusting bool) *World {
 	cs := cm.TipState()
 	w := &World{HostKey: Key("verif-host"), RenterKey: Key("verif-renter"), CS: cs}
-	w.Con = &RecContractor{EphemeralContractor: testutil.NewEphemeralContractor(cm)}
+	if trusting {
+		w.Con = &RecContractor{Contractor: NewTrustingContractor()}
+	} else {
+		ec := testutil.NewEphemeralContractor(cm)
+		w.closeCon = func() { ec.Close() }
+		w.Con = &RecContractor{Contractor: ec}
+	}
 	w.Sec = &RecSectors{EphemeralSectorStore: testutil.NewEphemeralSectorStore(), Vouched: map[types.Hash256]bool{}}
 	w.Prices = Prices(w.HostKey, cs.Index.Height, time.Now().Add(time.Hour))
 	w.Settings = proto4.HostSettings{
@@ -385,7 +438,9 @@ func (w *World) Close() {
 	w.T.mux.Close()
 	w.Srv.Close()
 	<-w.serveDone
-	w.Con.EphemeralContractor.Close()
+	if w.closeCon != nil {
+		w.closeCon()
+	}
 }
 
 // Root returns a synthetic sector root.
